@@ -306,51 +306,34 @@ theorem takeWhile_all (p : Char → Bool) : ∀ l : Str, ∀ x ∈ l.takeWhile p
       · exact ih x hx
     · simp at hx
 
-/-- `_IDENTIFIER_PATTERN.match` is the identifier test, except for one trailing newline -/
-theorem identMatch_strict (n : Str) (h : identMatch n = true) (hnl : '\n' ∉ n) : isIdent n = true := by
+/-- `_IDENTIFIER_PATTERN.match` (greedy run, then `\Z`) is exactly the identifier test -/
+theorem identMatch_iff (n : Str) : identMatch n = isIdent n := by
   cases n with
-  | nil => simp [identMatch] at h
+  | nil => rfl
   | cons c r =>
-    simp only [identMatch, Bool.and_eq_true] at h
-    simp only [isIdent, Bool.and_eq_true]
-    refine ⟨h.1, ?_⟩
-    have h2 := h.2
-    split at h2
-    · rename_i hd
+    simp only [identMatch, isIdent]
+    congr 1
+    cases hd : r.dropWhile isIdCont with
+    | nil =>
+      have := all_of_dropWhile_nil _ _ hd
+      simp only [List.isEmpty_nil]
+      symm
       rw [List.all_eq_true]
-      exact all_of_dropWhile_nil _ _ hd
-    · rename_i x hd
-      have hx : x = '\n' := by simpa using h2
-      subst hx
-      have : '\n' ∈ r := mem_of_mem_dropWhile (p := isIdCont) (by rw [hd]; simp)
-      exact absurd (List.mem_cons_of_mem _ this) hnl
-    · cases h2
-
-theorem identMatch_loose (n : Str) (h : identMatch n = true) : isIdent n = true ∨ ∃ m, n = m ++ ['\n'] ∧ isIdent m = true := by
-  cases n with
-  | nil => simp [identMatch] at h
-  | cons c r =>
-    simp only [identMatch, Bool.and_eq_true] at h
-    have h2 := h.2
-    split at h2
-    · rename_i hd
-      left
-      simp only [isIdent, Bool.and_eq_true]
-      exact ⟨h.1, by rw [List.all_eq_true]; exact all_of_dropWhile_nil _ _ hd⟩
-    · rename_i x hd
-      have hx : x = '\n' := by simpa using h2
-      subst hx
-      right
-      refine ⟨c :: r.takeWhile isIdCont, ?_, ?_⟩
-      · have := List.takeWhile_append_dropWhile (p := isIdCont) (l := r)
+      exact this
+    | cons x xs =>
+      simp only [List.isEmpty_cons]
+      symm
+      rw [Bool.eq_false_iff]
+      intro hall
+      rw [List.all_eq_true] at hall
+      have hx : x ∈ r := mem_of_mem_dropWhile (p := isIdCont) (by rw [hd]; simp)
+      have h1 := hall x hx
+      have h2 : isIdCont x = false := by
+        have := List.head?_dropWhile_not isIdCont r
         rw [hd] at this
-        simp [this]
-      · simp only [isIdent, Bool.and_eq_true]
-        refine ⟨h.1, ?_⟩
-        rw [List.all_eq_true]
-        intro y hy
-        exact takeWhile_all _ _ y hy
-    · cases h2
+        simpa using this
+      rw [h1] at h2
+      cases h2
 
 /-! ### the main statements about `validate` -/
 
@@ -402,23 +385,10 @@ theorem validate_total (cenv : Cenv) (t : Str) :
     rw [e] at hraw
     exact splitSlash_ne_nil _ hraw.symm
 
-/-- accepted ⇒ the field names of the whole template are pairwise distinct, each passes `_IDENTIFIER_PATTERN.match`
-    (an identifier, possibly followed by one newline — the `$` of the pattern) and none is in `keyword.kwlist` -/
-theorem validate_fields_distinct (cenv : Cenv) (t : Str) (recs : List SegRec) (h : validate cenv t = .ok recs) :
-    (fieldNames recs).Nodup ∧
-    ∀ n ∈ fieldNames recs, (isIdent n = true ∨ ∃ m, n = m ++ ['\n'] ∧ isIdent m = true) ∧ isKeyword n = false := by
-  obtain ⟨_, _, hn, hnd, hall⟩ := validate_ok cenv t recs h
-  refine ⟨hnd, ?_⟩
-  intro n hmem
-  rw [hn] at hmem
-  simp only [namesOf, List.mem_map] at hmem
-  obtain ⟨f, hf, rfl⟩ := hmem
-  exact ⟨identMatch_loose _ (hall f hf).1, (hall f hf).2.1⟩
-
-/-- **`validate_fields_distinct_identifiers`**: for a template without a newline character, accepted ⇒ all field names
-    are pairwise distinct identifiers `[A-Za-z_][A-Za-z0-9_]*`, none of them a Python keyword -/
+/-- **`validate_fields_distinct_identifiers`**: accepted ⇒ all field names of the whole template are pairwise distinct
+    identifiers `[A-Za-z_][A-Za-z0-9_]*`, none of them in `keyword.kwlist` -/
 theorem validate_fields_distinct_identifiers (cenv : Cenv) (t : Str) (recs : List SegRec)
-    (h : validate cenv t = .ok recs) (hnl : '\n' ∉ t) :
+    (h : validate cenv t = .ok recs) :
     (fieldNames recs).Nodup ∧ ∀ n ∈ fieldNames recs, isIdent n = true ∧ isKeyword n = false := by
   obtain ⟨_, _, hn, hnd, hall⟩ := validate_ok cenv t recs h
   refine ⟨hnd, ?_⟩
@@ -426,9 +396,17 @@ theorem validate_fields_distinct_identifiers (cenv : Cenv) (t : Str) (recs : Lis
   rw [hn] at hmem
   simp only [namesOf, List.mem_map] at hmem
   obtain ⟨f, hf, rfl⟩ := hmem
-  refine ⟨identMatch_strict _ (hall f hf).1 ?_, (hall f hf).2.1⟩
-  intro hc
-  exact hnl (allFields_mem t f hf _ hc)
+  exact ⟨by rw [← identMatch_iff]; exact (hall f hf).1, (hall f hf).2.1⟩
+
+/-- every field name of an accepted template is a piece of the template text -/
+theorem validate_field_chars (cenv : Cenv) (t : Str) (recs : List SegRec) (h : validate cenv t = .ok recs) :
+    ∀ n ∈ fieldNames recs, ∀ c ∈ n, c ∈ t := by
+  obtain ⟨_, _, hn, _, _⟩ := validate_ok cenv t recs h
+  intro n hmem
+  rw [hn] at hmem
+  simp only [namesOf, List.mem_map] at hmem
+  obtain ⟨f, hf, rfl⟩ := hmem
+  exact allFields_mem t f hf
 
 /-- accepted ⇒ every `:converter` part names a registered converter that can be instantiated with its arguments -/
 theorem validate_converters_ok (cenv : Cenv) (t : Str) (recs : List SegRec) (h : validate cenv t = .ok recs) :
@@ -453,7 +431,6 @@ def cenv0 : Cenv :=
 
 example : (validate cenv0 "/a/{x}/{y:int(2)}-{z}".toList).toOption.map fieldNames
     = some ["x".toList, "y".toList, "z".toList] := by decide
-example : '\n' ∉ "/a/{x}/{y:int(2)}-{z}".toList := by decide
 example : rejOf (validate cenv0 "/a/{x}/{x}".toList) = some .duplicate := by decide
 example : rejOf (validate cenv0 "/{a}-{a}".toList) = some .duplicate := by decide
 example : rejOf (validate cenv0 "/{class}".toList) = some .identifier := by decide
@@ -464,7 +441,10 @@ example : rejOf (validate cenv0 "/{x:nope}".toList) = some .unknownConv := by de
 example : rejOf (validate cenv0 "/{x:int(0)}".toList) = some .badConvArgs := by decide
 /-- whitespace INSIDE a field expression is not seen by the whitespace check (it is `sub`-stituted away first) -/
 example : (validate cenv0 "/{x:int( 2 )}".toList).toOption.map fieldNames = some ["x".toList] := by decide
-/-- the `$` of `_IDENTIFIER_PATTERN`: a field name that ends in a newline is accepted, keyword or not -/
-theorem newline_field_name_witness :
-    (validate cenv0 "/{class\n}".toList).toOption.map fieldNames = some ["class\n".toList] := by decide
+/-- F34 (fixed in 84476b0): with `$` instead of `\Z` a field name ending in a newline — keyword or not — passed the
+    identifier check; the repaired pattern rejects it -/
+theorem f34_witness :
+    identMatchPinned "class\n".toList = true ∧ identMatch "class\n".toList = false ∧
+    rejOf (validate cenv0 "/{class\n}".toList) = some .identifier ∧
+    rejOf (validate cenv0 "/q/{x\n}-{y}".toList) = some .identifier := by decide
 end Rv
